@@ -189,17 +189,22 @@ Lemma id_rules_snoc past o t :
   = id_rules past t ++ match o with AddId s u _ => if id_eqb u t then [s] else [] | _ => [] end.
 Proof. unfold id_rules. rewrite flat_map_app. simpl. rewrite app_nil_r. reflexivity. Qed.
 
+(* ---------- the rule in force ---------- *)
+Lemma current_snoc {A} (l : list A) x : current (l ++ [x]) = Some x.
+Proof. unfold current. rewrite rev_app_distr. reflexivity. Qed.
+Lemma current_none {A} (l : list A) : current l = None -> l = [].
+Proof. unfold current. destruct l as [|x l]; [reflexivity|]. simpl. destruct (rev l); simpl; discriminate. Qed.
+Lemma current_in {A} (l : list A) x : current l = Some x -> In x l.
+Proof.
+  unfold current. intro H. apply in_rev. destruct (rev l); simpl in H; [discriminate|].
+  injection H as ->. left; reflexivity.
+Qed.
+
 (* ---------- the invariant: the router's fields are functions of the history ---------- *)
 Record Inv (i : input) (past : list op) (r : router) : Prop := {
   inv_fb : r_fallback r = fb i;
-  inv_pre : forall p, match get Nat.eqb p (r_prefixes r) with
-                      | Some sc => In sc (prefix_rules past p)
-                      | None => prefix_rules past p = []
-                      end;
-  inv_ids : forall t, match get id_eqb t (r_ids r) with
-                      | Some s => In s (id_rules past t)
-                      | None => id_rules past t = []
-                      end;
+  inv_pre : forall p, get Nat.eqb p (r_prefixes r) = current (prefix_rules past p);
+  inv_ids : forall t, get id_eqb t (r_ids r) = current (id_rules past t);
   inv_sinks : r_sinks r = registered i past;
   inv_run : r_in_run r = in_run past }.
 
@@ -227,7 +232,7 @@ Proof.
     + rewrite F1. exact Hfb.
     + intro q. rewrite F2, (get_put Nat.eqb Nat.eqb_eq), prefix_rules_snoc.
       rewrite (Nat.eqb_sym q p). destruct (Nat.eqb p q).
-      * apply in_or_app. right. left. reflexivity.
+      * rewrite current_snoc. reflexivity.
       * rewrite app_nil_r. apply Hpre.
     + intro u. rewrite F3, id_rules_snoc, app_nil_r. apply Hids.
     + rewrite F4, registered_snoc, Hsinks. destruct ss; reflexivity.
@@ -242,7 +247,7 @@ Proof.
     + intro u. rewrite F3, (get_put id_eqb id_eqb_spec), id_rules_snoc.
       destruct (id_eqb u t) eqn:E1.
       * apply id_eqb_spec in E1. subst u. replace (id_eqb t t) with true by (symmetry; apply id_eqb_spec; reflexivity).
-        apply in_or_app. right. left. reflexivity.
+        rewrite current_snoc. reflexivity.
       * replace (id_eqb t u) with false.
         -- rewrite app_nil_r. apply Hids.
         -- symmetry. destruct (id_eqb t u) eqn:E2; [|reflexivity].
@@ -307,11 +312,9 @@ Lemma by_id_ok i past r e0 :
         end)) = true.
 Proof.
   intros [Hfb _ Hids _ _]. unfold by_id_or_fallback.
-  specialize (Hids (e_id e0)). destruct (get id_eqb (e_id e0) (r_ids r)) as [t|].
-  - destruct (nonempty_in _ _ Hids) as (y & rs & Ers). rewrite Ers. rewrite <- Ers. simpl.
-    apply existsb_exists. exists t. split; [exact Hids|].
-    apply per_sink_ok. intros k _. apply calls_for_one.
-  - rewrite Hids, Hfb. destruct (fb i) as [f|]; simpl.
+  rewrite <- (Hids (e_id e0)). destruct (get id_eqb (e_id e0) (r_ids r)) as [t|].
+  - simpl. apply per_sink_ok. intros k _. apply calls_for_one.
+  - rewrite Hfb. destruct (fb i) as [f|]; simpl.
     + apply per_sink_ok. intros k _. apply calls_for_one.
     + apply per_sink_ok. intros k _. reflexivity.
 Qed.
@@ -325,10 +328,9 @@ Proof.
   unfold status_okb. simpl step. generalize (pushed via e). intro e0. specialize (Hrest e0).
   unfold route_status.
   destruct (first_seg (e_route e0)) as [p|] eqn:Ep.
-  - specialize (Hpre p). destruct (get Nat.eqb p (r_prefixes r)) as [[t c]|] eqn:G.
-    + (* a prefix rule *)
-      destruct (nonempty_in _ _ Hpre) as (y & rs & Ers). rewrite Ers. rewrite <- Ers. simpl.
-      apply existsb_exists. exists (t, c). split; [exact Hpre|].
+  - specialize (Hpre p). rewrite <- Hpre. destruct (get Nat.eqb p (r_prefixes r)) as [[t c]|] eqn:G.
+    + (* the prefix rule in force *)
+      symmetry in Hpre. apply current_in in Hpre. simpl.
       assert (Ht : t < n_sinks i) by (apply Hrange; eapply prefix_rules_sinks; exact Hpre).
       unfold handed. simpl fst. simpl snd.
       destruct (per_sink_new_is (n_sinks i)
@@ -347,7 +349,6 @@ Proof.
            reflexivity.
       * apply per_sink_ok. intros k _. apply calls_for_one.
     + (* no rule for that prefix *)
-      rewrite Hpre.
       destruct (get id_eqb (e_id e0) (r_ids r)) as [t|]; [simpl snd; exact Hrest|].
       destruct (r_fallback r); simpl snd; exact Hrest.
   - destruct (get id_eqb (e_id e0) (r_ids r)) as [t|]; [simpl snd; exact Hrest|].
@@ -429,44 +430,43 @@ Qed.
 
 Lemma by_id_sound i past e0 so :
   by_id_or_fallback i past e0 so = true ->
-  (id_rules past (e_id e0) <> [] ->
-     s_raised so = false
-     /\ exists s, In s (id_rules past (e_id e0)) /\ New_is (n_sinks i) (only s (St e0)) (s_new so))
-  /\ (id_rules past (e_id e0) = [] ->
+  (forall s, current (id_rules past (e_id e0)) = Some s ->
+     s_raised so = false /\ New_is (n_sinks i) (only s (St e0)) (s_new so))
+  /\ (current (id_rules past (e_id e0)) = None ->
      match fb i with
      | Some f => s_raised so = false /\ New_is (n_sinks i) (only f (St e0)) (s_new so)
      | None => s_raised so = true /\ New_is (n_sinks i) nobody (s_new so)
      end).
 Proof.
-  unfold by_id_or_fallback. destruct (id_rules past (e_id e0)) as [|y ss] eqn:E.
-  - intro H. split; [intro N; exfalso; apply N; reflexivity|]. intros _.
+  unfold by_id_or_fallback. destruct (current (id_rules past (e_id e0))) as [y|] eqn:E.
+  - intro H. split; [|discriminate]. intros s Es. injection Es as <-.
+    apply andb_true_iff in H as [H1 H2]. split; [apply negb_true_iff; exact H1|]. apply new_is_spec. exact H2.
+  - intro H. split; [discriminate|]. intros _.
     destruct (fb i); apply andb_true_iff in H as [H1 H2]; apply new_is_spec in H2; split; try exact H2.
     + apply negb_true_iff. exact H1.
     + exact H1.
-  - intro H. split; [|discriminate]. intros _.
-    apply andb_true_iff in H as [H1 H2]. split; [apply negb_true_iff; exact H1|].
-    apply existsb_exists in H2 as [s [Hs H2]]. exists s. split; [exact Hs|]. apply new_is_spec. exact H2.
 Qed.
 
 Lemma status_okb_sound i past via e so : status_okb i past via e so = true -> Status_spec i past via e so.
 Proof.
   unfold status_okb, Status_spec. generalize (pushed via e). intro e0. cbv zeta.
   destruct (first_seg (e_route e0)) as [p|] eqn:Ep.
-  - destruct (prefix_rules past p) as [|y rs] eqn:Er.
+  - destruct (current (prefix_rules past p)) as [[s c]|] eqn:Er.
+    + intro H. apply andb_true_iff in H as [H1 H2]. split; [|split].
+      * intros q s' c' Hq Hc. injection Hq as <-. rewrite Er in Hc. injection Hc as <- <-.
+        split; [apply negb_true_iff; exact H1|].
+        unfold handed in H2. simpl in H2.
+        destruct (nth s (s_new so) []) as [|[| |d] [|? ?]]; try discriminate.
+        apply andb_true_iff in H2 as [H2 H3]. exists d.
+        split; [apply rel_okb_sound; exact H2 | apply new_is_spec; exact H3].
+      * intro N. specialize (N p eq_refl). rewrite Er in N. discriminate.
+      * intro N. specialize (N p eq_refl). rewrite Er in N. discriminate.
     + intro H. apply by_id_sound in H as [H1 H2]. split; [|split].
-      * intros q Hq N. injection Hq as <-. exfalso. apply N. exact Er.
+      * intros q s' c' Hq Hc. injection Hq as <-. rewrite Er in Hc. discriminate.
       * intros _. exact H1.
       * intros _. exact H2.
-    + intro H. apply andb_true_iff in H as [H1 H2]. split; [|split].
-      * intros q Hq _. injection Hq as <-. split; [apply negb_true_iff; exact H1|].
-        apply existsb_exists in H2 as [[s c] [Hs H2]]. unfold handed in H2. simpl in H2.
-        destruct (nth s (s_new so) []) as [|[| |d] [|? ?]]; try discriminate.
-        apply andb_true_iff in H2 as [H2 H3]. exists s, c, d. rewrite Er.
-        split; [exact Hs|]. split; [apply rel_okb_sound; exact H2 | apply new_is_spec; exact H3].
-      * intro N. specialize (N p eq_refl). rewrite Er in N. discriminate.
-      * intro N. specialize (N p eq_refl). rewrite Er in N. discriminate.
   - intro H. apply by_id_sound in H as [H1 H2]. split; [|split].
-    + intros q Hq. discriminate.
+    + intros q s' c' Hq. discriminate.
     + intros _. exact H1.
     + intros _. exact H2.
 Qed.
@@ -618,50 +618,55 @@ Proof.
   exact (H k o so Ho Hso).
 Qed.
 
-Theorem one_sink i : wf i -> wf_distinct i -> forall k via e so,
+Lemma prefix_rules_split l1 l2 s p c ss :
+  prefix_rules l2 p = [] -> current (prefix_rules (l1 ++ AddPrefix s p c ss :: l2) p) = Some (s, c).
+Proof.
+  intro H. unfold prefix_rules in *. rewrite flat_map_app. simpl. rewrite Nat.eqb_refl, H. simpl.
+  apply current_snoc.
+Qed.
+Lemma id_rules_split l1 l2 s t ss :
+  id_rules l2 t = [] -> current (id_rules (l1 ++ AddId s t ss :: l2) t) = Some s.
+Proof.
+  intro H. unfold id_rules in *. rewrite flat_map_app. simpl.
+  replace (id_eqb t t) with true by (symmetry; apply id_eqb_spec; reflexivity). rewrite H. simpl.
+  apply current_snoc.
+Qed.
+
+(* no hypothesis on the rule set: keys may be re-mapped, sinks may serve several rules *)
+Theorem one_sink i : wf i -> forall k via e so,
   nth_error (ops i) k = Some (Status via e) -> nth_error (o_steps (model i)) k = Some so ->
   let past := firstn k (ops i) in
   let e0 := pushed via e in
   let n := n_sinks i in
   let no_prefix_rule := forall s p c ss, In (AddPrefix s p c ss) past -> first_seg (e_route e0) <> Some p in
   let no_id_rule := forall s ss, ~ In (AddId s (e_id e0) ss) past in
-  (forall s p c ss, In (AddPrefix s p c ss) past -> first_seg (e_route e0) = Some p ->
+  (forall l1 l2 s p c ss, past = l1 ++ AddPrefix s p c ss :: l2 -> prefix_rules l2 p = [] ->
+     first_seg (e_route e0) = Some p ->
      s_raised so = false
      /\ New_is n (only s (St (if c then set_route e0 (strip_first (e_route e0)) else e0))) (s_new so))
-  /\ (no_prefix_rule -> forall s ss, In (AddId s (e_id e0) ss) past ->
+  /\ (no_prefix_rule -> forall l1 l2 s ss, past = l1 ++ AddId s (e_id e0) ss :: l2 -> id_rules l2 (e_id e0) = [] ->
      s_raised so = false /\ New_is n (only s (St e0)) (s_new so))
   /\ (no_prefix_rule -> no_id_rule -> forall f, fb i = Some f ->
      s_raised so = false /\ New_is n (only f (St e0)) (s_new so))
   /\ (no_prefix_rule -> no_id_rule -> fb i = None ->
      s_raised so = true /\ New_is n nobody (s_new so)).
 Proof.
-  intros Hwf Hd k via e so Ho Hso past e0 n no_prefix_rule no_id_rule.
+  intros Hwf k via e so Ho Hso past e0 n no_prefix_rule no_id_rule.
   pose proof (nth_error_model_step i k so Hso Hwf _ Ho) as HS. simpl in HS.
   unfold Status_spec in HS. fold past e0 n in HS. cbv zeta in HS. destruct HS as (HS1 & HS2 & HS3).
-  unfold wf_distinct, wf_distinctb in Hd. apply andb_true_iff in Hd as [Hd Hd3]. apply andb_true_iff in Hd as [Hd1 Hd2].
-  apply (nodupb_NoDup _ Nat.eqb_eq) in Hd2. apply (nodupb_NoDup _ id_eqb_spec) in Hd3.
-  assert (Up : forall p, length (prefix_rules past p) <= 1).
-  { intro p. apply prefix_rules_unique. apply NoDup_firstn_keys. exact Hd2. }
-  assert (Ui : forall t, length (id_rules past t) <= 1).
-  { intro t. apply id_rules_unique. apply NoDup_firstn_keys. exact Hd3. }
-  assert (NP : no_prefix_rule -> forall p, first_seg (e_route e0) = Some p -> prefix_rules past p = []).
-  { intros N p Hp. destruct (prefix_rules past p) as [|[s c] rs] eqn:E; [reflexivity|]. exfalso.
-    destruct (prefix_rules_to_op past s p c) as [ss Hin]; [rewrite E; left; reflexivity|].
+  assert (NP : no_prefix_rule -> forall p, first_seg (e_route e0) = Some p -> current (prefix_rules past p) = None).
+  { intros N p Hp. destruct (current (prefix_rules past p)) as [[s c]|] eqn:E; [|reflexivity]. exfalso.
+    destruct (prefix_rules_to_op past s p c) as [ss Hin]; [apply current_in; exact E|].
     exact (N s p c ss Hin Hp). }
-  assert (NI : no_id_rule -> id_rules past (e_id e0) = []).
-  { intros N. destruct (id_rules past (e_id e0)) as [|s rs] eqn:E; [reflexivity|]. exfalso.
-    destruct (id_rules_to_op past s (e_id e0)) as [ss Hin]; [rewrite E; left; reflexivity|].
+  assert (NI : no_id_rule -> current (id_rules past (e_id e0)) = None).
+  { intros N. destruct (current (id_rules past (e_id e0))) as [s|] eqn:E; [|reflexivity]. exfalso.
+    destruct (id_rules_to_op past s (e_id e0)) as [ss Hin]; [apply current_in; exact E|].
     exact (N s ss Hin). }
   split; [|split; [|split]].
-  - intros s p c ss Hin Hp. apply prefix_rules_of_op in Hin.
-    pose proof (single _ _ Hin (Up p)) as E.
-    destruct (HS1 p Hp) as [R (s' & c' & d & Hin' & HR & HN)]; [rewrite E; discriminate|].
-    split; [exact R|]. rewrite E in Hin'. destruct Hin' as [Hin'|[]]. injection Hin' as <- <-.
-    rewrite <- (rel_unique c p e0 d Hp HR). exact HN.
-  - intros N s ss Hin. apply id_rules_of_op in Hin.
-    pose proof (single _ _ Hin (Ui (e_id e0))) as E.
-    destruct (HS2 (NP N)) as [R (s' & Hin' & HN)]; [rewrite E; discriminate|].
-    split; [exact R|]. rewrite E in Hin'. destruct Hin' as [<-|[]]. exact HN.
+  - intros l1 l2 s p c ss Hpast Hl2 Hp.
+    destruct (HS1 p s c Hp) as [R (d & HR & HN)]; [rewrite Hpast; apply prefix_rules_split; exact Hl2|].
+    split; [exact R|]. rewrite <- (rel_unique c p e0 d Hp HR). exact HN.
+  - intros N l1 l2 s ss Hpast Hl2. apply (HS2 (NP N)). rewrite Hpast. apply id_rules_split. exact Hl2.
   - intros N1 N2 f Hf. specialize (HS3 (NP N1) (NI N2)). rewrite Hf in HS3. exact HS3.
   - intros N1 N2 Hf. specialize (HS3 (NP N1) (NI N2)). rewrite Hf in HS3. exact HS3.
 Qed.
@@ -712,21 +717,65 @@ Proof.
   assert (Honly : forall t c, New_is (n_sinks i) (only t (St c)) (s_new so) ->
                               filter is_start_stop (nth s (s_new so) []) = []).
   { intros t c [_ HN]. rewrite (HN s Hs). unfold only. destruct (Nat.eqb s t); reflexivity. }
-  assert (Hrest : (forall p, first_seg (e_route e0) = Some p -> prefix_rules past p = []) ->
+  assert (Hrest : (forall p, first_seg (e_route e0) = Some p -> current (prefix_rules past p) = None) ->
                   filter is_start_stop (nth s (s_new so) []) = []).
-  { intro N. destruct (id_rules past (e_id e0)) as [|y ss] eqn:Ei.
+  { intro N. destruct (current (id_rules past (e_id e0))) as [y|] eqn:Ei.
+    - destruct (H2 N y eq_refl) as [_ HN]. exact (Honly _ _ HN).
     - specialize (H3 N eq_refl). destruct (fb i) as [f|].
       + destruct H3 as [_ HN]. exact (Honly _ _ HN).
-      + destruct H3 as [_ [_ HN]]. rewrite (HN s Hs). reflexivity.
-    - destruct (H2 N) as [_ (t & _ & HN)]; [discriminate|]. exact (Honly _ _ HN). }
+      + destruct H3 as [_ [_ HN]]. rewrite (HN s Hs). reflexivity. }
   destruct (first_seg (e_route e0)) as [p|] eqn:Ep.
-  - destruct (prefix_rules past p) as [|y rs] eqn:Er.
+  - destruct (current (prefix_rules past p)) as [[t c]|] eqn:Er.
+    + destruct (H1 p t c eq_refl Er) as [_ (d & _ & HN)]. exact (Honly _ _ HN).
     + apply Hrest. intros q Hq. injection Hq as <-. exact Er.
-    + destruct (H1 p eq_refl) as [_ (t & c & d & _ & _ & HN)]; [rewrite Er; discriminate|]. exact (Honly _ _ HN).
   - apply Hrest. intros q Hq. discriminate.
 Qed.
 
-Theorem start_stop i : wf i -> wf_distinct i -> forall k o so s,
+Lemma filter_repeat_ss c n : is_start_stop c = true -> filter is_start_stop (repeat c n) = repeat c n.
+Proof. intro H. induction n as [|n IH]; simpl; [reflexivity|]. rewrite H, IH. reflexivity. Qed.
+
+Lemma registered_app_count i s past l :
+  count s (registered i past) <= count s (registered i (past ++ l)).
+Proof. unfold registered. rewrite flat_map_app, !count_app. lia. Qed.
+
+Lemma reg_once_firstn i s k : reg_once i s -> count s (registered i (firstn k (ops i))) <= 1.
+Proof.
+  unfold reg_once. intro H. etransitivity; [|exact H].
+  rewrite <- (firstn_skipn k (ops i)) at 2. apply registered_app_count.
+Qed.
+
+(* any rule set, any history: one startTestRun / stopTestRun per registration *)
+Theorem start_stop_count i : wf i -> forall k o so s,
+  nth_error (ops i) k = Some o -> nth_error (o_steps (model i)) k = Some so -> s < n_sinks i ->
+  let past := firstn k (ops i) in
+  filter is_start_stop (nth s (s_new so) []) =
+    match o with
+    | Start => repeat StartRun (count s (registered i past))
+    | Stop => repeat StopRun (count s (registered i past))
+    | AddPrefix s' _ _ ss | AddId s' _ ss => if Nat.eqb s' s && ss && in_run past then [StartRun] else []
+    | Status _ _ => []
+    | AddRej _ _ _ => []
+    end.
+Proof.
+  intros Hwf k o so s Ho Hso Hs past.
+  pose proof (nth_error_model_step i k so Hso Hwf _ Ho) as HS. fold past in HS.
+  assert (Hadd : forall s' ss, s_raised so = false /\
+                   New_is (n_sinks i) (if ss && in_run past then only s' StartRun else nobody) (s_new so) ->
+                 filter is_start_stop (nth s (s_new so) []) = if Nat.eqb s' s && ss && in_run past then [StartRun] else []).
+  { intros s' ss [_ [_ HN]]. rewrite (HN s Hs). rewrite (Nat.eqb_sym s' s), <- andb_assoc.
+    destruct (ss && in_run past); [|rewrite andb_false_r; reflexivity].
+    rewrite andb_true_r. unfold only. destruct (Nat.eqb s s'); reflexivity. }
+  destruct o as [s' p c ss | s' t ss | | | via e | s' w ss]; simpl in HS.
+  - apply Hadd. exact HS.
+  - apply Hadd. exact HS.
+  - destruct HS as [_ [_ HN]]. rewrite (HN s Hs). apply filter_repeat_ss. reflexivity.
+  - destruct HS as [_ [_ HN]]. rewrite (HN s Hs). apply filter_repeat_ss. reflexivity.
+  - eapply status_spec_no_start_stop; [exact HS | exact Hs].
+  - destruct HS as [_ [_ HN]]. rewrite (HN s Hs). reflexivity.
+Qed.
+
+(* a sink asked to receive start/stop at most once - whatever rules it serves, re-mapped or not *)
+Theorem start_stop i : wf i -> forall k o so s, reg_once i s ->
   nth_error (ops i) k = Some o -> nth_error (o_steps (model i)) k = Some so -> s < n_sinks i ->
   let past := firstn k (ops i) in
   filter is_start_stop (nth s (s_new so) []) =
@@ -738,26 +787,19 @@ Theorem start_stop i : wf i -> wf_distinct i -> forall k o so s,
     | AddRej _ _ _ => []
     end.
 Proof.
-  intros Hwf Hd k o so s Ho Hso Hs past.
-  pose proof (nth_error_model_step i k so Hso Hwf _ Ho) as HS. fold past in HS.
-  unfold wf_distinct, wf_distinctb in Hd. apply andb_true_iff in Hd as [Hd _]. apply andb_true_iff in Hd as [Hd _].
-  apply (nodupb_NoDup _ Nat.eqb_eq) in Hd.
-  assert (Hc : count s (registered i past) <= 1).
-  { etransitivity; [apply registered_count_le|]. apply (NoDup_count_occ Nat.eq_dec). exact Hd. }
-  destruct (count_memb s _ Hc) as [C1 C2].
-  assert (Hadd : forall s' ss, s_raised so = false /\
-                   New_is (n_sinks i) (if ss && in_run past then only s' StartRun else nobody) (s_new so) ->
-                 filter is_start_stop (nth s (s_new so) []) = if Nat.eqb s' s && ss && in_run past then [StartRun] else []).
-  { intros s' ss [_ [_ HN]]. rewrite (HN s Hs). rewrite (Nat.eqb_sym s' s), <- andb_assoc.
-    destruct (ss && in_run past); [|rewrite andb_false_r; reflexivity].
-    rewrite andb_true_r. unfold only. destruct (Nat.eqb s s'); reflexivity. }
-  destruct o as [s' p c ss | s' t ss | | | via e | s' w ss]; simpl in HS.
-  - apply Hadd. exact HS.
-  - apply Hadd. exact HS.
-  - destruct HS as [_ [_ HN]]. rewrite (HN s Hs), C1. destruct (memb s (registered i past)); reflexivity.
-  - destruct HS as [_ [_ HN]]. rewrite (HN s Hs), C2. destruct (memb s (registered i past)); reflexivity.
-  - eapply status_spec_no_start_stop; [exact HS | exact Hs].
-  - destruct HS as [_ [_ HN]]. rewrite (HN s Hs). reflexivity.
+  intros Hwf k o so s Honce Ho Hso Hs past.
+  rewrite (start_stop_count i Hwf k o so s Ho Hso Hs). fold past.
+  destruct (count_memb s _ (reg_once_firstn i s k Honce)) as [C1 C2]. fold past in C1, C2.
+  destruct o; try reflexivity; [exact C1 | exact C2].
+Qed.
+
+(* distinct sinks, one rule per key: every sink is registered at most once *)
+Theorem distinct_once i : wf_distinct i -> forall s, reg_once i s.
+Proof.
+  intros Hd s. unfold wf_distinct, wf_distinctb in Hd. apply andb_true_iff in Hd as [Hd _]. apply andb_true_iff in Hd as [Hd _].
+  apply (nodupb_NoDup _ Nat.eqb_eq) in Hd. unfold reg_once.
+  rewrite <- (firstn_all (ops i)). etransitivity; [apply registered_count_le|].
+  apply (NoDup_count_occ Nat.eq_dec). exact Hd.
 Qed.
 
 Lemma firstn_le_incl {A} (l : list A) : forall j k x, j <= k -> In x (firstn j l) -> In x (firstn k l).
@@ -911,10 +953,6 @@ Proof.
   - destruct HS as [_ [_ HN]]. rewrite (HN s Hs). reflexivity.
 Qed.
 
-Lemma registered_app_count i s past l :
-  count s (registered i past) <= count s (registered i (past ++ l)).
-Proof. unfold registered. rewrite flat_map_app, !count_app. lia. Qed.
-
 Lemma ss_log_expected i s : s < n_sinks i -> forall l past os,
   steps_okb i past l os = true -> count s (registered i (past ++ l)) <= 1 ->
   ss_log s os = ss_expected i s past l.
@@ -974,7 +1012,7 @@ Qed.
 Lemma count_le1_split s (a b : list sink) : count s (a ++ b) <= 1 -> count s a = 1 -> count s b = 0.
 Proof. rewrite count_app. lia. Qed.
 
-Theorem start_stop_log i : wf i -> wf_distinct i -> forall s, s < n_sinks i ->
+Theorem start_stop_log i : wf i -> forall s, reg_once i s -> s < n_sinks i ->
   let log := ss_log s (o_steps (model i)) in
   (* never registered for start/stop: neither is ever received *)
   (count s (registered i (ops i)) = 0 -> log = [])
@@ -984,12 +1022,7 @@ Theorem start_stop_log i : wf i -> wf_distinct i -> forall s, s < n_sinks i ->
   /\ (forall k o, nth_error (ops i) k = Some o -> In s (registration o) ->
         log = (if in_run (firstn k (ops i)) then [StartRun] else []) ++ flat_map ss_of_op (skipn (S k) (ops i))).
 Proof.
-  intros Hwf Hd s Hs log.
-  assert (Hc : count s (registered i (ops i)) <= 1).
-  { unfold wf_distinct, wf_distinctb in Hd. apply andb_true_iff in Hd as [Hd _]. apply andb_true_iff in Hd as [Hd _].
-    apply (nodupb_NoDup _ Nat.eqb_eq) in Hd.
-    rewrite <- (firstn_all (ops i)). etransitivity; [apply registered_count_le|].
-    apply (NoDup_count_occ Nat.eq_dec). exact Hd. }
+  intros Hwf s Hc Hs log. unfold reg_once in Hc.
   assert (Hlog : log = ss_expected i s [] (ops i)).
   { unfold log. apply ss_log_expected; [exact Hs | | exact Hc].
     pose proof (model_meets_spec i Hwf) as H. unfold spec_okb in H. apply andb_true_iff in H as [H _]. exact H. }
